@@ -449,3 +449,247 @@ Proof.
     + cbn [kidx]. rewrite Es. rewrite skipn_all. constructor.
   - apply (IH Trest HK' _ _ _ _ (or_intror (conj eq_refl He1)) H).
 Qed.
+
+(* ---------- an incoming '|' ---------- *)
+Lemma pop_while_suffix o : forall stk out out' stk', pop_while o stk out = inl (out', stk') ->
+  (exists pre, stk = pre ++ stk') /\ (match stk' with SOp top _ :: _ => popped top o = false | _ => True end).
+Proof.
+  induction stk as [|it r IH]; intros out out' stk' H; cbn [pop_while] in H.
+  - injection H as <- <-. split; [exists []; reflexivity | exact I].
+  - destruct it as [top i|t i].
+    + destruct (popped top o) eqn:Ep.
+      * destruct (operate (SOp top i) out) as [out1|e]; [|discriminate]. destruct (IH _ _ _ H) as [[pre ->] Ht]. split; [exists (SOp top i :: pre); reflexivity | exact Ht].
+      * injection H as <- <-. split; [exists []; reflexivity | exact Ep].
+    + injection H as <- <-. split; [exists []; reflexivity | exact I].
+Qed.
+Lemma accepts_tildebar o stk : octx o = CTildeBar -> accepts o stk = true ->
+  Forall (fun it => match it with SOp p _ => (oprec p <= oprec o)%Z -> sym_in_tildebar (osym p) = true | SCtx _ _ => False end) stk.
+Proof.
+  unfold accepts. intros -> H. induction stk as [|it r IH]; [constructor|]. cbn [filter] in H.
+  destruct it as [p i|t i].
+  - destruct (oprec p <=? oprec o)%Z eqn:E.
+    + cbn [forallb] in H. apply andb_prop in H as [H1 H2]. constructor; [intros _; exact H1 | apply IH, H2].
+    + constructor; [intro L; apply Z.leb_gt in E; lia | apply IH, H].
+  - cbn [forallb] in H. discriminate.
+Qed.
+
+Lemma try_ops_bar cands : Forall (fun o => osem o = SBar) cands -> (forall o, In o cands -> odis o = false -> known o) ->
+  forall out stk out' stk', Inv out stk -> try_ops cands out stk = inl (out', stk') -> Inv out' stk'.
+Proof.
+  induction cands as [|o rest IH]; intros Ht HK out stk out' stk' HI H; cbn [try_ops] in H; [discriminate|].
+  inversion Ht as [|? ? So Srest]; subst.
+  assert (HK' : forall o', In o' rest -> odis o' = false -> known o') by (intros o' Hin; apply HK; right; exact Hin).
+  destruct (accepts o stk) eqn:Ea; cbn [negb] in H; [|apply (IH Srest HK' _ _ _ _ HI H)].
+  destruct (odis o) eqn:Ed; [apply (IH Srest HK' _ _ _ _ HI H)|].
+  assert (Ko : known o) by (apply HK; [left; reflexivity | exact Ed]). pose proof (known_facts o Ko) as Fo.
+  destruct (of_bar o Fo So) as (Co & Po & Fx). pose proof (accepts_tildebar o stk Co Ea) as Hab.
+  assert (Es : is_struct o = true) by (unfold is_struct; rewrite So; reflexivity).
+  destruct (pop_while o stk out) as [[out1 stk1]|e] eqn:E; [|discriminate].
+  pose proof (pop_while_plain o (bar_resists o Fo So) stk out out1 stk1 HI E) as HI1.
+  destruct (pop_while_suffix o stk out out1 stk1 E) as [[pre Hpre] Htop].
+  match type of H with (if ?c then _ else _) = _ => destruct c eqn:Eok end; [|apply (IH Srest HK' _ _ _ _ HI1 H)].
+  injection H as <- <-. destruct HI1 as (Hk1 & Hs1 & Hc1 & He1 & _).
+  (* what is left on the stack below the new bar is structured (or nothing) *)
+  assert (HB : Bshape (SOp o (length out1) :: stk1)).
+  { cbn [Bshape]. destruct stk1 as [|it2 r2]; [exact Es|]. split; [exact So|].
+    assert (Hin : In it2 stk) by (rewrite Hpre; apply in_or_app; right; left; reflexivity).
+    rewrite Forall_forall in Hab. specialize (Hab it2 Hin). destruct it2 as [top i2|t i2]; [|destruct Hab].
+    inversion Hk1 as [|? ? Kt _]; subst. pose proof (known_facts top Kt) as Ft.
+    destruct (is_struct top) eqn:Et; [apply (shape_struct_top top i2 r2 Et Hs1)|].
+    (* a plain operator on top would have been applied *)
+    exfalso. destruct (of_plain top Ft Et) as [Pt _]. unfold popped in Htop.
+    replace (oprec o <? oprec top)%Z with true in Htop by (symmetry; apply Z.ltb_lt; lia). discriminate. }
+  refine (conj _ (conj _ (conj _ (conj He1 _)))).
+  - constructor; [exact Ko | exact Hk1].
+  - cbn [shape]. rewrite Es. exact HB.
+  - cbn [chain sidx]. split; [lia|]. split; [intros _; apply (ok_infix o (length out1) (topidx stk1) Fo Fx Eok) | exact Hc1].
+  - cbn [kidx]. rewrite Es. rewrite skipn_all. constructor.
+Qed.
+
+(* ---------- an incoming plain operator ---------- *)
+Lemma try_ops_plain cands : Forall (fun o => is_struct o = false) cands -> (forall o, In o cands -> odis o = false -> known o) ->
+  forall out stk out' stk', Inv out stk -> try_ops cands out stk = inl (out', stk') -> Inv out' stk'.
+Proof.
+  induction cands as [|o rest IH]; intros Ht HK out stk out' stk' HI H; cbn [try_ops] in H; [discriminate|].
+  inversion Ht as [|? ? Po Prest]; subst.
+  assert (HK' : forall o', In o' rest -> odis o' = false -> known o') by (intros o' Hin; apply HK; right; exact Hin).
+  destruct (negb (accepts o stk)); [apply (IH Prest HK' _ _ _ _ HI H)|].
+  destruct (odis o) eqn:Ed; [apply (IH Prest HK' _ _ _ _ HI H)|].
+  assert (Ko : known o) by (apply HK; [left; reflexivity | exact Ed]). pose proof (known_facts o Ko) as Fo.
+  destruct (pop_while o stk out) as [[out1 stk1]|e] eqn:E; [|discriminate].
+  pose proof (pop_while_plain o (plain_resists o Fo Po) stk out out1 stk1 HI E) as HI1.
+  match type of H with (if ?c then _ else _) = _ => destruct c eqn:Eok end; [|apply (IH Prest HK' _ _ _ _ HI1 H)].
+  injection H as <- <-. destruct HI1 as (Hk1 & Hs1 & Hc1 & He1).
+  refine (conj _ (conj _ (conj _ _))).
+  - constructor; [exact Ko | exact Hk1].
+  - cbn [shape]. rewrite Po. exact Hs1.
+  - cbn [chain sidx]. split; [lia|]. split; [intro Fx; apply (ok_infix o (length out1) (topidx stk1) Fo Fx Eok) | exact Hc1].
+  - cbn [kidx]. rewrite Po. exact He1.
+Qed.
+
+(* ---------- all candidates for one symbol are of one family ---------- *)
+Lemma sym_class o : In o (table f) ->
+  (osym o = [cTILDE] /\ is_tilde o = true) \/ (osym o = [cBAR] /\ osem o = SBar) \/ (osym o <> [cTILDE] /\ osym o <> [cBAR] /\ is_struct o = false).
+Proof.
+  intro Hin. cbn [table In] in Hin.
+  repeat (destruct Hin as [<-|Hin]; [cbn; first [left; split; reflexivity | right; left; split; reflexivity | right; right; repeat split; (discriminate || reflexivity)]|]).
+  contradiction.
+Qed.
+Lemma str_dec (a b : str) : {a = b} + {a <> b}.
+Proof. apply list_eq_dec, N.eq_dec. Qed.
+Lemma leqb_true a b : leqb a b = true -> a = b.
+Proof.
+  revert b. induction a as [|x a IH]; intros [|y b] H; cbn in H; try discriminate; [reflexivity|].
+  apply andb_prop in H as [H1 H2]. apply N.eqb_eq in H1. f_equal; [exact H1 | apply IH, H2].
+Qed.
+Lemma cands_family s : Forall (fun o => is_tilde o = true) (candidates f s) \/ Forall (fun o => osem o = SBar) (candidates f s) \/
+                       Forall (fun o => is_struct o = false) (candidates f s).
+Proof.
+  assert (Hc : forall o, In o (candidates f s) -> In o (table f) /\ osym o = s).
+  { intros o H. unfold candidates in H. apply filter_In in H as [H1 H2]. split; [exact H1 | apply leqb_true, H2]. }
+  destruct (str_dec s [cTILDE]) as [->|N1]; [left|destruct (str_dec s [cBAR]) as [->|N2]; [right; left | right; right]];
+    apply Forall_forall; intros o Ho; destruct (Hc o Ho) as [Hin Hs]; destruct (sym_class o Hin) as [[S1 T]|[[S2 B]|(N3 & N4 & P)]];
+    try assumption; try (exfalso; congruence); try (exfalso; rewrite Hs in *; vm_compute in *; congruence).
+Qed.
+Lemma cands_known s o : In o (candidates f s) -> odis o = false -> known o.
+Proof. intros H Hd. unfold candidates in H. apply filter_In in H as [H _]. split; assumption. Qed.
+
+Lemma do_syms_inv syms : forall out stk out' stk', Inv out stk -> do_syms f syms out stk = inl (out', stk') -> Inv out' stk'.
+Proof.
+  induction syms as [|s rest IH]; intros out stk out' stk' HI H; cbn [do_syms] in H; [injection H as <- <-; exact HI|].
+  destruct (candidates f s) as [|c cs] eqn:Ec; [discriminate|].
+  destruct (try_ops (c :: cs) out stk) as [[o1 s1]|e] eqn:E; [|discriminate].
+  assert (HI1 : Inv o1 s1).
+  { pose proof (cands_family s) as Fam. rewrite Ec in Fam.
+    assert (HK : forall o, In o (c :: cs) -> odis o = false -> known o) by (intros o Ho; apply (cands_known s); rewrite Ec; exact Ho).
+    destruct Fam as [Ft|[Fb|Fp]].
+    - apply (try_ops_tilde (c :: cs) Ft HK out stk o1 s1 (or_introl HI) E).
+    - apply (try_ops_bar (c :: cs) Fb HK out stk o1 s1 HI E).
+    - apply (try_ops_plain (c :: cs) Fp HK out stk o1 s1 HI E). }
+  apply (IH _ _ _ _ HI1 H).
+Qed.
+
+(* ---------- brackets ---------- *)
+Lemma close_ctx_struct opener : forall stk out, Bshape stk -> match close_ctx opener stk out with inl _ => False | inr _ => True end.
+Proof.
+  induction stk as [|it r IH]; intros out HB; cbn [close_ctx]; [exact I|].
+  destruct it as [o i|t i]; [|destruct HB]. destruct (operate (SOp o i) out) as [out1|e]; [|exact I]. apply IH. apply (Bshape_tail _ _ HB).
+Qed.
+Lemma close_ctx_inv opener : forall stk out out' stk', Inv out stk -> close_ctx opener stk out = inl (out', stk') -> Inv out' stk'.
+Proof.
+  induction stk as [|it r IH]; intros out out' stk' HI H; cbn [close_ctx] in H; [discriminate|].
+  destruct HI as (Hk & Hs & Hc & He). inversion Hk as [|? ? Kit Kr]; subst.
+  destruct it as [o i|t i].
+  - pose proof (known_facts o Kit) as Fo. destruct (is_struct o) eqn:Es.
+    + exfalso. pose proof (close_ctx_struct opener (SOp o i :: r) out (shape_struct_top o i r Es Hs)) as X. cbn [close_ctx] in X. rewrite H in X. exact X.
+    + destruct (operate (SOp o i) out) as [out1|e] eqn:E; [|discriminate]. cbn [kidx] in He. rewrite Es in He.
+      destruct (operate_plain o i r out out1 Fo Es Hc He E) as [Hc1 He1].
+      apply (IH out1 out' stk'); [|exact H]. exact (conj Kr (conj (shape_tail _ _ Hs) (conj Hc1 He1))).
+  - destruct (leqb t opener); [|discriminate]. destruct (i =? length out); [discriminate|]. injection H as <- <-.
+    destruct Hc as (Hi & _ & Hr). cbn [sidx] in *.
+    refine (conj Kr (conj Hs (conj _ He))). apply (chain_mono r i); [exact Hr|]. pose proof (chain_top _ _ Hr). lia.
+Qed.
+
+(* ---------- one token, all tokens ---------- *)
+Lemma leaf_inv out stk t : Inv out stk -> Inv (out ++ [ALeaf t]) stk.
+Proof.
+  intros (Hk & Hs & Hc & (He1 & He2)). refine (conj Hk (conj Hs (conj _ (conj _ _)))).
+  - apply (chain_mono stk (length out)); [exact Hc|]. rewrite app_length. cbn [length]. pose proof (chain_top _ _ Hc). lia.
+  - apply Forall_app. split; [exact He1|]. constructor; [|constructor]. split; [exact I | unfold is_side; cbn; discriminate].
+  - rewrite skipn_app. pose proof (kidx_le _ _ Hc) as K. replace (kidx stk - length out) with 0 by lia. cbn [skipn].
+    apply Forall_app. split; [exact He2|]. constructor; [reflexivity | constructor].
+Qed.
+Lemma mstep_inv fixed t out stk out' stk' : Inv out stk -> mstep fixed f t (out, stk) = inl (out', stk') -> Inv out' stk'.
+Proof.
+  intros HI H. unfold mstep in H. destruct (kd t).
+  all: try (injection H as <- <-; apply leaf_inv; exact HI).
+  - destruct (leqb (tx t) [cLP] || leqb (tx t) [cLS]).
+    + injection H as <- <-. destruct HI as (Hk & Hs & Hc & He).
+      refine (conj _ (conj Hs (conj _ He))); [constructor; [exact I | exact Hk] | cbn [chain sidx]; split; [lia | split; [exact I | exact Hc]]].
+    + destruct (opener_of (tx t)) as [o|]; [|discriminate]. apply (close_ctx_inv _ _ _ _ _ HI H).
+  - apply (do_syms_inv _ _ _ _ _ HI H).
+Qed.
+Lemma mrun_inv fixed ts : forall out stk out' stk', Inv out stk -> mrun fixed f ts (out, stk) = inl (out', stk') -> Inv out' stk'.
+Proof.
+  induction ts as [|t ts IH]; intros out stk out' stk' HI H; cbn [mrun] in H; [injection H as <- <-; exact HI|].
+  destruct (mstep fixed f t (out, stk)) as [[o1 s1]|e] eqn:E; [|discriminate].
+  apply (IH _ _ _ _ (mstep_inv _ _ _ _ _ _ HI E) H).
+Qed.
+
+(* ---------- the end of the input: everything left on the stack is applied ---------- *)
+Lemma operate_tilde o i out out' : opfacts o -> is_tilde o = true -> ent_side out -> operate (SOp o i) out = inl out' -> Forall ws out'.
+Proof.
+  intros F T He H. pose proof (of_shape o F) as Sh. pose proof (of_nomulti o F) as NM. unfold is_tilde in T. unfold operate in H.
+  assert (Hw : Forall ws out) by (eapply Forall_impl; [|exact He]; intros a [X _]; exact X).
+  destruct (osem o) eqn:S; try discriminate; try contradiction; cbn beta iota in Sh.
+  - rewrite Sh in H. destruct (1 <=? i) eqn:E1; [|discriminate]. apply Nat.leb_le in E1.
+    destruct (i + 1 <=? length out) eqn:E2; [|discriminate]. apply Nat.leb_le in E2. injection H as <-.
+    destruct (side_children out (i - 1) (i + 1 - (i - 1)) He) as [Cs Cw].
+    apply Forall_app. split; [apply Forall_firstn', Hw|]. constructor; [|apply Forall_skipn', Hw].
+    apply ws_node. rewrite S. cbn [kids_ok]. split; [split; [rewrite length_slice by lia; lia | exact Cs] | exact Cw].
+  - destruct Sh as [Sh Ar]. rewrite Sh, Ar in H. destruct (i + 1 <=? length out) eqn:E2; [|discriminate]. apply Nat.leb_le in E2. injection H as <-.
+    destruct (side_children out i (i + 1 - i) He) as [Cs Cw].
+    apply Forall_app. split; [apply Forall_firstn', Hw|]. constructor; [|apply Forall_skipn', Hw].
+    apply ws_node. rewrite S. cbn [kids_ok]. split; [split; [rewrite length_slice by lia; lia | exact Cs] | exact Cw].
+Qed.
+Lemma finish_struct : forall stk out fin, WInv out stk -> finish stk out = inl fin -> Forall ws fin.
+Proof.
+  induction stk as [|it r IH]; intros out fin (Hk & Hb & Hc & He) H; cbn [finish] in H.
+  - injection H as <-. eapply Forall_impl; [|exact He]. intros a [X _]. exact X.
+  - destruct it as [o i|t i]; [|discriminate]. inversion Hk as [|? ? Ko Kr]; subst. pose proof (known_facts o Ko) as Fo.
+    destruct (operate (SOp o i) out) as [out1|e] eqn:E; [|discriminate].
+    destruct (is_tilde o) eqn:T.
+    + (* a tilde is the last operator on the stack *)
+      assert (r = []) as ->.
+      { cbn [Bshape] in Hb. destruct r as [|it2 r2]; [reflexivity|]. destruct Hb as [Hbar _]. unfold is_tilde in T. rewrite Hbar in T. discriminate. }
+      cbn [finish] in H. injection H as <-. apply (operate_tilde o i out out1 Fo T He E).
+    + pose proof (struct_not_tilde o Fo (Bshape_struct _ _ _ Hb) T) as Sb.
+      destruct (operate_bar o i r out out1 Fo Sb Hc He E) as [Hc1 He1].
+      apply (IH out1 fin); [|exact H]. exact (conj Kr (conj (Bshape_tail _ _ Hb) (conj Hc1 He1))).
+Qed.
+Lemma finish_inv : forall stk out fin, Inv out stk -> finish stk out = inl fin -> Forall ws fin.
+Proof.
+  induction stk as [|it r IH]; intros out fin HI H.
+  - cbn [finish] in H. injection H as <-. destruct HI as (_ & _ & _ & (He & _)). eapply Forall_impl; [|exact He]. intros a [X _]. exact X.
+  - destruct it as [o i|t i]; [|cbn [finish] in H; discriminate].
+    destruct (is_struct o) eqn:Es.
+    + apply (finish_struct (SOp o i :: r) out fin); [apply Inv_struct_top_WInv; assumption | exact H].
+    + cbn [finish] in H. destruct HI as (Hk & Hs & Hc & He). inversion Hk as [|? ? Ko Kr]; subst. pose proof (known_facts o Ko) as Fo.
+      destruct (operate (SOp o i) out) as [out1|e] eqn:E; [|discriminate]. cbn [kidx] in He. rewrite Es in He.
+      destruct (operate_plain o i r out out1 Fo Es Hc He E) as [Hc1 He1].
+      apply (IH out1 fin); [|exact H]. exact (conj Kr (conj (shape_tail _ _ Hs) (conj Hc1 He1))).
+Qed.
+
+Theorem to_ast_well_sorted fixed ts a : to_ast fixed f ts = inl (Some a) -> ws a.
+Proof.
+  unfold to_ast. destruct (mrun fixed f ts ([], [])) as [[out stk]|e] eqn:E; [|discriminate].
+  assert (H0 : Inv [] []) by (refine (conj (Forall_nil _) (conj I (conj I (conj (Forall_nil _) _)))); constructor).
+  pose proof (mrun_inv fixed ts [] [] out stk H0 E) as HI.
+  destruct (finish stk out) as [fin|e] eqn:Fi; [|discriminate].
+  pose proof (finish_inv stk out fin HI Fi) as Hf.
+  destruct fin as [|x [|y r]]; try discriminate. intro H. injection H as <-. inversion Hf; assumption.
+Qed.
+End Machine.
+
+(* ====================================================================================================
+   the whole pipeline: with MULTISTAGE off no internal exception class escapes at all
+   ==================================================================================================== *)
+Require Import ParserTotal.
+Theorem get_terms_never_internal fixed intercept f av bad pn pv cl s n :
+  f_stage f = false -> fragments_only_syntax_errors bad ->
+  get_terms fixed intercept f av bad pn pv cl s <> inr (EInternal n).
+Proof.
+  intros Hst Hbad H. pose proof (get_terms_internal_errors fixed intercept f av bad pn pv cl s n Hbad H) as ->.
+  (* class 5 can only come from the evaluation of the AST, which is well-sorted *)
+  unfold get_terms in H. destruct (tokenize_partial cl s) as [toks lexerr]. destruct (cut_bad bad (map of_token toks)) as [ts0' pyerr] eqn:Ec.
+  destruct pyerr as [e|].
+  - destruct (cut_bad_err bad _ _ _ Ec) as (t & c & _ & _ & Hp & ->). destruct (py_err_in bad _ _ Hp) as (frag & Hin & _).
+    rewrite (Hbad frag c Hin) in H. discriminate.
+  - destruct lexerr; [discriminate|]. unfold finish_terms in H.
+    destruct (to_ast fixed f (get_tokens intercept (map (normalise pn) ts0'))) as [[a|]|e] eqn:Ea; try discriminate.
+    + pose proof (to_ast_well_sorted f Hst fixed _ a Ea) as Hw.
+      match type of H with context [eval ?fu ?cx a] => pose proof (eval_ws_not_stuck cx a Hw) as Hn; destruct (eval fu cx a) as [v|e] end.
+      * destruct (match v with VSide s0 => check_side s0 | VTwo l r => check_side l && check_side r | VMulti => true end); discriminate.
+      * injection H as ->. exact Hn.
+    + pose proof (to_ast_clean fixed f (get_tokens intercept (map (normalise pn) ts0'))) as [C1 C2]. rewrite Ea in C1, C2. injection H as ->. exact C1.
+Qed.
